@@ -22,7 +22,7 @@ ASSUMPTIONS = [
 ]
 MONITORS = "TransferResult vs os.walk listings of the destination before/after, per-oid upload log, source byte snapshot and audit-hook mutation log on the source"
 REQUIRED_COUNTERS = [
-    "wide_directory_scenarios", "rounds_destination_of_other_md5_flavour", "ids_as/iterator", "ids_as/generator", "rounds_with_hardlink_option", "rounds_read_only_destination", "rounds_source_index_clear_fails", "rounds_source_vanishes", "corrupt_parseable_dir_objects", "rounds_with_index", "rounds_dest_with_state", "rounds", "rounds_with_failures", "rounds_with_preexisting", "rounds_missing_both_sides", "rounds_verify_corrupt_source",
+    "index_across_sessions_rounds", "wide_directory_scenarios", "rounds_destination_of_other_md5_flavour", "ids_as/iterator", "ids_as/generator", "rounds_with_hardlink_option", "rounds_read_only_destination", "rounds_source_index_clear_fails", "rounds_source_vanishes", "corrupt_parseable_dir_objects", "rounds_with_index", "rounds_dest_with_state", "rounds", "rounds_with_failures", "rounds_with_preexisting", "rounds_missing_both_sides", "rounds_verify_corrupt_source",
     "transferred_objects_checked", "source_snapshots_compared", "rounds_expanded", "rounds_local_dest", "rounds_remote_dest",
 ]
 
@@ -94,9 +94,53 @@ def run_shard(ctx):
         env.reset_staging()
         ctx.drop(d)
 
+    def index_across_sessions(case, rng):
+        """a persistent destination index: first push while a file is missing on both sides (expanded request), the file comes back,
+        second push through a FRESH handle on the same index"""
+        from dvc_data.hashfile.db.index import ObjectDBIndex
+
+        d = ctx.fresh("xs")
+        sc = Scenario(ctx, rng, d, dest_kind=rng.choice(["remote", "local"]), ntrees=rng.choice([1, 2]), extra_files=False)
+        idx_dir = os.path.join(d, "idx")
+        files = sorted(sc.file_oids())
+        gone = rng.choice(files)
+        kept = sc.src_path(gone) + ".verif-kept"
+        os.replace(sc.src_path(gone), kept)
+        dir_ids = {t["hi"] for t in sc.trees}
+        index = ObjectDBIndex(idx_dir, "dest")
+        r1 = transfer(sc.src, sc.dest, dir_ids, jobs=rng.choice([1, 4]), dest_index=index, cache_odb=sc.src, shallow=False)
+        index.close()
+        res.evaluated()
+        res.count("rounds")
+        res.count("rounds_with_index")
+        res.count("index_across_sessions_rounds")
+        os.replace(kept, sc.src_path(gone))  # the file is back in the source
+        before = dest_objects(sc)
+        index2 = ObjectDBIndex(idx_dir, "dest")
+        r2 = transfer(sc.src, sc.dest, dir_ids, jobs=rng.choice([1, 4]), dest_index=index2, cache_odb=sc.src, shallow=False)
+        index2.close()
+        after = dest_objects(sc)
+        T, F = {h.value for h in r2.transferred}, {h.value for h in r2.failed}
+        res.nontrivial("index-across-sessions", sorted(t["oid"] for t in sc.trees), gone)
+        info = {"variant": "index-across-sessions", "dest": sc.dest_kind, "missing_at_first": gone}
+        denoted = {t["oid"] for t in sc.trees} | set(files)
+        for o in sorted(denoted):
+            if o not in after and o not in F:
+                res.violation("absent-object-not-reported/persistent-index-across-sessions", f"{o} is requested (expanded), absent afterwards and not reported failed", case=case, detail=info)
+                break
+        for o in sorted(T):
+            res.count("transferred_objects_checked")
+            if o not in after or not ok_bytes(sc, o, after[o]):
+                res.violation("reported-transferred-but-absent/persistent-index-across-sessions", f"{o}", case=case, detail=info)
+        env.reset_staging()
+        ctx.drop(d)
+
     for case, rng in ctx.cases(ctx.plan["n"]):
         if case % 8 == 7:
             ctx.guard(case, with_index, case, rng)
+            continue
+        if case % 16 == 3:
+            ctx.guard(case, index_across_sessions, case, rng)
             continue
 
         def one(case=case, rng=rng):
